@@ -3,7 +3,7 @@
    Operation are either all derived from ONE three-way comparison (or "unordered"
    for NaN), or all false with the same operand error; the three-way comparison is
    monotone in the literal. *)
-From Rules Require Import Ops OpsProps ValuesProps.
+From Rules Require Import Ops OpsProps ValuesProps FloatProofs.
 Open Scope Z_scope.
 
 Section WithLower.
@@ -79,17 +79,19 @@ Proof.
 Qed.
 
 Theorem mono_int l v w :
+  min_int64 <= v <= max_int64 -> min_int64 <= w <= max_int64 ->
   v < w ->
   (int_cmp l (RInt v) = inl (Some Lt) -> int_cmp l (RInt w) = inl (Some Lt)) /\
   (int_cmp l (RInt w) = inl (Some Gt) -> int_cmp l (RInt v) = inl (Some Gt)).
 Proof.
-  intros Hvw. unfold int_cmp. destruct l; cbn; try (split; discriminate).
+  intros Rv Rw Hvw. unfold int_cmp. destruct l; cbn; try (split; discriminate).
   - split; intros [= H]; do 2 f_equal; [change (z < v) in H; change (z < w)|change (z > w) in H; change (z > v)]; lia.
   - split; intros [= H]; do 2 f_equal; [change (z < v) in H; change (z < w)|change (z > w) in H; change (z > v)]; lia.
   - split; intros [= H]; do 2 f_equal; [change (z < v) in H; change (z < w)|change (z > w) in H; change (z > v)]; lia.
   - (* float64 attribute: exact dyadic order against both integers *)
     assert (Hvw' : f64_compare (FFin v 0) (FFin w 0) = Some Lt).
     { cbn. unfold dyadic_compare. cbn. rewrite !Z.mul_1_r. f_equal. exact Hvw. }
+    rewrite !compare_float_to_int_exact by assumption.
     unfold f64_compare_Z. destruct (mono_float f _ _ Hvw') as [M1 M2].
     split; intros [= H]; f_equal; auto.
 Qed.
